@@ -5,7 +5,7 @@ import common, genrun, tlc, render
 from execworld import World
 import execreplay
 
-QUICK = ["MC_multi_vars.cfg", "MC_multi_nested.cfg", "MC_multi_ops.cfg", "MC_multi_faults.cfg", "MC_multi_three.cfg", "MC_multi_dirs.cfg"]
+QUICK = ["MC_multi_vars.cfg", "MC_multi_nested.cfg", "MC_multi_ops.cfg", "MC_multi_faults.cfg", "MC_multi_three.cfg", "MC_multi_dirs.cfg", "MC_multi_frag.cfg"]
 
 
 def job(j):
